@@ -51,6 +51,7 @@ var (
 	StarExprType     = reflect.TypeOf(ast.StarExpr{})
 
 	// Struct Pointers
+	CaseClausePtrType   = reflect.PtrTo(CaseClauseType)
 	CommentGroupPtrType = reflect.PtrTo(CommentGroupType)
 	FieldListPtrType    = reflect.PtrTo(FieldListType)
 	FieldPtrType        = reflect.PtrTo(FieldType)
